@@ -96,6 +96,7 @@ def run(chk):
     for n, why in st["assumed"]:
         if "pinv" in n or "psolve" in n:
             chk.assume(f"lemma {n} ASSUMED: {why}")
+    precision_table(chk, old_gp)
     from props import c16_svd
     c16_svd.run(chk)
 
@@ -109,3 +110,29 @@ def run(chk):
             return c16_replay.replay(w)
         return None
     return replayer
+
+
+def precision_table(chk, get_precision):
+    """the ghost constant eps(dtype) of the CG rule is the REAL get_precision: it must be at the rounding level of the dtype (<= 1e4 machine epsilons), for the four
+    floating dtypes, so that the explicit regulariser c A^H stays a rounding-level term"""
+    import time
+    from cola.backends import np_fns as xnp
+    from vcgen.core import DISCHARGED, FAILED, Ob
+    t0 = time.time()
+    bad = []
+    for dt in (np.float32, np.float64, np.complex64, np.complex128):
+        try:
+            v = float(get_precision(xnp, dt))
+        except Exception as e:
+            bad.append(f"{np.dtype(dt).name}: raises {type(e).__name__}: {e}")
+            continue
+        bound = 1e4 * float(np.finfo(dt).eps)
+        if not (0 < v <= bound):
+            bad.append(f"get_precision({np.dtype(dt).name}) = {v:g}, rounding level is <= {bound:.1e}")
+    ob = Ob(key="C16/get_precision/the regulariser of the CG rule is at the rounding level of the dtype", fn="cola.utils.utils_linalg.get_precision",
+            clause="0 < eps(dtype) <= 1e4 * machine epsilon", engine="TAB", status=DISCHARGED if not bad else FAILED, backend="real function, all four floating dtypes",
+            secs=time.time() - t0, detail="; ".join(bad) if bad else "float32, float64, complex64, complex128")
+    if bad:
+        ob.witness = dict(engine="direct", failing_input_found=True, observed=bad[0], expected="rounding level", input="get_precision on the four floating dtypes")
+    chk.add(ob)
+    chk.under_contract("cola.utils.utils_linalg.get_precision")
